@@ -264,6 +264,13 @@ def _load_tree(d):
         raise ValueError("unknown class %s" % c)
     if d.get("n") is not None:
         setattr(node, "_luqum_name", d["n"])
+    if c in ("Fuzzy", "Proximity", "Boost") and d["num"].get("imp"):
+        # a number that is not printed but was assigned in place (`node.degree = 2` on `foo~`): no constructor call
+        # gives that state, the attribute is assigned as the caller did
+        attr = "force" if c == "Boost" else "degree"
+        val = _num_value(d["num"], as_int=True) if c == "Proximity" else _num_value(d["num"])
+        if getattr(node, attr) != val:
+            setattr(node, attr, val)
     return node
 
 
